@@ -279,7 +279,7 @@ fn execute(case: &Case, mode: RtMode) -> Observed {
             let mut script = vec![trace_action(m)];
             script.extend(case.claims.iter().filter(|c| c.m == m).map(claim_action));
             script.extend(case.resolves.iter().filter(|r| r.m == m).map(resolve_action));
-            MachineSpec { nets: vec![0; *k], arp: true, apps: vec![AppSpec { n: 0, script }], ..Default::default() }
+            MachineSpec { nets: vec![0; *k], arp: true, apps: vec![AppSpec { n: 0, script, ..Default::default() }], ..Default::default() }
         })
         .collect();
     let sc = Scenario {
